@@ -544,7 +544,6 @@ func c02Stress(r *Run, round int) {
 	}
 }
 
-
 // ---------------------------------------------------------------- (e) cost raise on a hot cache
 
 // c02HotCostRaise: the cache is full and most of it has been read often enough
